@@ -4,7 +4,7 @@ text of /repo/optuna/study/_tell.py (Python `ast`, whitelisted statement shapes 
 What is regenerated (and then tied to the hand model by theorems of Props/C02, so a change of the
 source breaks a proof):
   * `checkStateAndValues`      the whole body of `_check_state_and_values`
-  * `castCaughtNames/castCaught`  the `except (...)` tuple of `_check_values_are_feasible`
+  * `castCaughtNames/castCaught`  the `except` clause (a class or a tuple of classes) of `_check_values_are_feasible`
   * `elemChecks`, `afterLoop`   the order of the per-element checks of its loop and what follows it
   * `noneBranch`               the `elif state is None:` decision of `_tell_with_warning`
   * `postShape`                the try/finally shape around `after_trial` / `set_trial_state_values`
